@@ -42,10 +42,19 @@ class ExecHandler(Virtual):
         if self.selectorargs:
             args.extend(self.selectorargs.split(" "))
 
-        if not self.protocol.check_tls():
+        if not self.protocol.check_tls() and self.hasfileno(wfile):
             subprocess.run(args, env=newenv, stdout=wfile)
         else:
-            # We can't pass the file handler because it's wrapped in a TLS context.
+            # We can't pass the file handler because it's wrapped in a TLS context
+            # or is an in-memory buffer (e.g. the WAP text conversion).
             # So grab the output from the CGI script and send it directly.
             resp = subprocess.run(args, env=newenv, capture_output=True)
             wfile.write(resp.stdout)
+
+    @staticmethod
+    def hasfileno(wfile) -> bool:
+        try:
+            wfile.fileno()
+        except (AttributeError, OSError):
+            return False
+        return True
